@@ -651,6 +651,17 @@ def run(ctx):
                 ctx.violation('counterexample', 'a format that is not valid for the graph type is not refused with ValueError',
                               dict(input=dict(graph_type=ty, format=fmt), read=list(r), write=list(w)), True, site='format-table', cls='unsupported-accepted')
 
+    # unknown format names and format guessing on a stream without a name: refused with ValueError (check only)
+    for ty in TYPES:
+        for fmt in ['foo', '', 'KTHLIST', 'autodetect', 'adjlist']:
+            r = impl_read(G, '1\n', ty, fmt)
+            w = outcome(impl_write, G, g0[ty], ty, fmt)
+            ctx.count('bad-format', (ty, fmt), True)
+            if not (r[0] == 'exc' and r[1] == 'ValueError') or not (w[0] == 'exc' and w[1] == 'ValueError'):
+                ctx.violation('counterexample', 'an unknown format name is not refused with ValueError',
+                              dict(input=dict(graph_type=ty, format=fmt), read=[str(x) for x in r], write=[str(x) for x in w[:2]]), True,
+                              site='format-table', cls='unknown-accepted')
+
     run_cli(ctx, G, quick, has_dot)
     ctx.exhaustive = False
 
